@@ -125,6 +125,8 @@ type Sched struct {
 	Trace     []Event
 	Published []Published
 	Fault     string // harness fault (timeouts): the execution is discarded, never reported as a violation
+	LostAck   int    // a request resumed after its entry was persisted that never came back (see LostAckSet)
+	LostAckSet bool
 	AllowFail bool   // enable persist_fail choices
 	AllowCrash bool  // enable crash choices
 	AllowCancel bool // enable cancellation of a request's context (at most MaxCancels times)
@@ -502,6 +504,14 @@ func (s *Sched) settle(expectTid int) {
 				continue
 			}
 			s.Fault = fmt.Sprintf("timeout waiting for thread=%v worker=%v", waitingThread, needWorker)
+			if waitingThread && expectTid >= 0 {
+				t := s.threads[expectTid]
+				if t.parkedAt == "wait" && !t.cancelled && t.kv["dry"] != "true" && s.persisted(t.kv["id"]) {
+					// resumed after its entry reached the disk, and still not back: the persistence signal was lost
+					s.LostAck = expectTid
+					s.LostAckSet = true
+				}
+			}
 			return
 		}
 	}
